@@ -168,9 +168,12 @@ Ev(e, row, data) ==
       [] e.k = "bin" ->
             LET a == Ev(e.l, row, data)
                 b == Ev(e.r, row, data)
-            IN  IF IsErr(a) \/ IsErr(b) THEN Err
-                ELSE IF IsNull(a) \/ IsNull(b) THEN Null
-                ELSE IF ~IsNum(a) \/ ~IsNum(b) THEN Err
+            \* as coded: a NULL left operand yields NULL before the right operand is looked at
+            IN  IF IsErr(a) THEN Err
+                ELSE IF IsNull(a) THEN Null
+                ELSE IF ~IsNum(a) \/ IsErr(b) THEN Err
+                ELSE IF IsNull(b) THEN Null
+                ELSE IF ~IsNum(b) THEN Err
                 ELSE Arith(e.op, a, b)
       [] e.k = "un" ->
             LET a == Ev(e.e, row, data)
